@@ -20,6 +20,7 @@ RULE = ('random sequential, deep and time-travel programs with inputs, word size
         'produce the identical timeline; non-trivial = the checked run executed at least one index, division or length '
         'guard or a protected return besides the function-entry guards; distinct by hash of (source, args, word)')
 ASSUMPTIONS = common.ISA_ASSUMPTIONS[:3]
+REQUIRED_HIDC_FUNCTIONS = ['codegen/generator:CodeGen.check_index', 'codegen/generator:CodeGen.arith_op_reg_arg']     # M-COV: deciding code never entered => inconclusive
 MIN_NONTRIVIAL = {'quick': 200, 'thorough': 2000}
 MAX_STEPS = 500_000
 
